@@ -311,6 +311,12 @@ class Regex(Term):
                "Regex value must contain the slashes")
 
 
+def _format_number(value):
+    """print a number in plain notation (Decimal's str may use an exponent, eg. 1E+1)
+    """
+    return format(value, "f") if isinstance(value, Decimal) else str(value)
+
+
 class BaseApprox(Item):
     """Base for approximations, that is fuzziness and proximity
     """
@@ -329,7 +335,7 @@ class BaseApprox(Item):
     def __str__(self, head_tail=False):
         value = "%s~%s" % (
             self.term.__str__(head_tail=True),
-            self.degree if not self._implicit_degree else "",
+            _format_number(self.degree) if not self._implicit_degree else "",
         )
         return self._head_tail(value, head_tail)
 
@@ -380,7 +386,7 @@ class Boost(Item):
         return "%s(%s, %s)" % (self.__class__.__name__, self.expr.__repr__(), self.force)
 
     def __str__(self, head_tail=False):
-        force = "" if self.implicit_force else self.force
+        force = "" if self.implicit_force else _format_number(self.force)
         value = "%s^%s" % (self.expr.__str__(head_tail=True), force)
         return self._head_tail(value, head_tail)
 
